@@ -26,6 +26,8 @@ pub enum Op {
     PushMany(Vec<u8>),
     /// plain iterator (no exact size); `lying_hint`: size_hint claims (0, Some(0))
     TryExtend(Vec<u8>, bool),
+    /// plain iterator whose size_hint is a loose upper bound: (0, Some(len + 40)) -- as `filter` gives
+    TryExtendLoose(Vec<u8>),
     SetMax(usize),
     Size,
     IsEmpty,
@@ -46,6 +48,7 @@ fn op_to_json(op: &Op) -> Value {
         Op::Discard(k) => json!({"op":"discard","k":k.to_string()}),
         Op::PushMany(l) => json!({"op":"push_many","list":l}),
         Op::TryExtend(l, h) => json!({"op":"try_extend","list":l,"lying_hint":h}),
+        Op::TryExtendLoose(l) => json!({"op":"try_extend_loose","list":l}),
         Op::SetMax(c) => json!({"op":"set_max","c":c.to_string()}),
         Op::Size => json!({"op":"size"}),
         Op::IsEmpty => json!({"op":"is_empty"}),
@@ -72,6 +75,7 @@ fn op_from_json(v: &Value) -> Option<Op> {
         "discard" => Op::Discard(v["k"].as_str()?.parse().ok()?),
         "push_many" => Op::PushMany(list()),
         "try_extend" => Op::TryExtend(list(), v["lying_hint"].as_bool()?),
+        "try_extend_loose" => Op::TryExtendLoose(list()),
         "set_max" => Op::SetMax(v["c"].as_str()?.parse().ok()?),
         "size" => Op::Size,
         "is_empty" => Op::IsEmpty,
@@ -96,6 +100,18 @@ pub enum Ret {
 struct PlainIter {
     items: std::vec::IntoIter<u8>,
     lying: bool,
+}
+struct LooseIter {
+    items: std::vec::IntoIter<u8>,
+}
+impl Iterator for LooseIter {
+    type Item = u8;
+    fn next(&mut self) -> Option<u8> {
+        self.items.next()
+    }
+    fn size_hint(&self) -> (usize, Option<usize>) {
+        (0, Some(self.items.len() + 40))
+    }
 }
 impl Iterator for PlainIter {
     type Item = u8;
@@ -140,6 +156,12 @@ pub fn apply_real(s: &mut Stack<u8>, op: &Op) -> Ret {
             let mut it = PlainIter {
                 items: l.clone().into_iter(),
                 lying: *lying,
+            };
+            s.try_extend(&mut it).map(|()| Ret::Unit)
+        }
+        Op::TryExtendLoose(l) => {
+            let mut it = LooseIter {
+                items: l.clone().into_iter(),
             };
             s.try_extend(&mut it).map(|()| Ret::Unit)
         }
@@ -224,7 +246,7 @@ pub fn apply_ref(vals: &[u8], max: usize, op: &Op) -> Vec<(Ret, Vec<u8>, usize)>
                 )]
             }
         }
-        Op::PushMany(l) | Op::TryExtend(l, _) => insert(l),
+        Op::PushMany(l) | Op::TryExtend(l, _) | Op::TryExtendLoose(l) => insert(l),
         Op::SetMax(c) => vec![(Ret::Unit, same(), *c)],
         Op::Size => vec![(Ret::Num(n), same(), max)],
         Op::IsEmpty => vec![(Ret::Bool(n == 0), same(), max)],
@@ -301,6 +323,7 @@ impl StackModel {
         for l in lists(&self.values, self.bulk_len) {
             ops.push(Op::PushMany(l.clone()));
             ops.push(Op::TryExtend(l.clone(), false));
+            ops.push(Op::TryExtendLoose(l.clone()));
             ops.push(Op::TryExtend(l, true));
         }
         for c in &self.caps {
@@ -324,6 +347,7 @@ fn kind_of(op: &Op, r: &Ret) -> String {
         Op::PushMany(_) => "push_many",
         Op::TryExtend(_, false) => "try_extend",
         Op::TryExtend(_, true) => "try_extend(lying hint)",
+        Op::TryExtendLoose(_) => "try_extend(loose hint)",
         Op::SetMax(_) => "set_max",
         Op::Size => "size",
         Op::IsEmpty => "is_empty",
@@ -370,7 +394,7 @@ fn step_inner(pre: &Stack<u8>, op: &Op) -> (Stack<u8>, Ret, Option<String>) {
         ));
     }
     // intrinsic invariants, independent of the reference
-    let inserting = matches!(op, Op::Push(_) | Op::PushMany(_) | Op::TryExtend(..));
+    let inserting = matches!(op, Op::Push(_) | Op::PushMany(_) | Op::TryExtend(..) | Op::TryExtendLoose(_));
     let ok = matches!(ret, Ret::Unit);
     if problem.is_none() && inserting && ok && post_vals.len() > vals.len() && post_vals.len() > post_max
     {
@@ -411,7 +435,7 @@ impl Model for StackModel {
         for op in self.all_ops() {
             let grow = match &op {
                 Op::Push(_) => 1,
-                Op::PushMany(l) | Op::TryExtend(l, _) => l.len(),
+                Op::PushMany(l) | Op::TryExtend(l, _) | Op::TryExtendLoose(l) => l.len(),
                 _ => 0,
             };
             // keep the state space finite: contents never grow beyond max_len
@@ -525,6 +549,10 @@ fn apply_wide(s: &mut Stack<Wide>, op: &Op) -> Ret {
             let mut it = It(l.iter().map(|v| wide(*v)).collect::<Vec<_>>().into_iter(), *lying);
             s.try_extend(&mut it).map(|()| Ret::Unit)
         }
+        Op::TryExtendLoose(l) => {
+            let mut it = It(l.iter().map(|v| wide(*v)).collect::<Vec<_>>().into_iter(), false);
+            s.try_extend(&mut it).map(|()| Ret::Unit)
+        }
         Op::SetMax(c) => {
             s.set_max_stack_size(*c);
             Ok(Ret::Unit)
@@ -630,6 +658,7 @@ fn long_stacks(run: &mut Run) -> u64 {
             for l in [vec![9u8], vec![9, 8], vec![9, 8, 7], big.clone(), big[..255].to_vec(), big[..256].to_vec(), big[..257].to_vec()] {
                 ops.push(Op::PushMany(l.clone()));
                 ops.push(Op::TryExtend(l.clone(), false));
+                ops.push(Op::TryExtendLoose(l.clone()));
                 ops.push(Op::TryExtend(l, true));
             }
             for c in [0usize, 255, 256, 257, len, len + 1] {
